@@ -119,7 +119,7 @@ func c03bNewWorld(t *testing.T, run *vk.Run) *c03bWorld {
 	rl := &security.RateLimitConfig{Rate: 1000000, Burst: 1000000, TTL: time.Hour}
 	n := newMiniNode(t, miniOpts{Store: gs, BruteForce: bf, RateLimit: rl, NoCommands: true})
 	w := &c03bWorld{n: n, gate: g, run: run, secret: map[int64]string{}, cancel: cancel}
-	for i := 0; i < 3; i++ {
+	for i := 0; i < 4; i++ { // c0..c2 log in legitimately; c3 is only the target of failing guesses
 		c := n.NewClient("") // from an address of its own
 		w.ids = append(w.ids, c.ClientID)
 		w.secret[c.ClientID] = c.Secret
@@ -241,7 +241,7 @@ func TestVerifC03BanRace(t *testing.T) {
 		}
 	}()
 	nviol := 0
-	for rd := 0; rd < rounds && nviol <= 20; rd++ {
+	for rd := 0; rd < rounds && nviol <= 20 && run.Counter("watchdog") == 0; rd++ {
 		if rd%perWorld == 0 {
 			if w != nil {
 				w.close()
@@ -267,15 +267,15 @@ func TestVerifC03BanRace(t *testing.T) {
 				res := w.send(attacker, "P1", 900000000+int64(r.Intn(1000)), banned)
 				w.judge(attacker, res, banned, "")
 			case 1:
-				w.trace = append(w.trace, "fail: P2garbage(C) without pending challenge")
+				w.trace = append(w.trace, "fail: P2garbage(c3) without pending challenge")
 				attacker.chal = ""
-				res := w.send(attacker, "P2garbage", w.ids[2], banned)
+				res := w.send(attacker, "P2garbage", w.ids[3], banned)
 				w.judge(attacker, res, banned, "")
 			default:
-				w.trace = append(w.trace, "fail: P1(c2) then P2garbage(c2)")
-				res := w.send(attacker, "P1", w.ids[2], banned)
+				w.trace = append(w.trace, "fail: P1(c3) then P2garbage(c3)")
+				res := w.send(attacker, "P1", w.ids[3], banned)
 				w.judge(attacker, res, banned, "")
-				res = w.send(attacker, "P2garbage", w.ids[2], banned)
+				res = w.send(attacker, "P2garbage", w.ids[3], banned)
 				w.judge(attacker, res, banned, "")
 			}
 			failures++
